@@ -175,6 +175,7 @@ static void generate(RunSpec& s, int tier) {
   static const int memk[] = {3, 5, 7, 9, 255}; static const int synck[] = {0, 1, 2, 4};
   s.knobs["mem_switch_log2"] = memk[r(5)]; s.knobs["sync_switch_log2"] = synck[r(4)];
   static const int sp[] = {0, 0, 3, 15}; s.knobs["spurious_pct"] = sp[r(4)];
+  static const int fz[] = {0, 0, 25, 60}; s.knobs["freeze_pct"] = fz[r(4)];
   bool sleepy = r(3) == 0;
   for (int c = 0; c < nc; ++c) {
     int n = 2 + (int)r(7); if (churn) n = 7 + (int)r(5);
@@ -195,7 +196,7 @@ static void generate(RunSpec& s, int tier) {
 static Result execute(const RunSpec& s, bool keepLog) {
   Config cfg;
   cfg.mem_switch_log2 = (int)simdrv::knob(s, "mem_switch_log2", 6); cfg.sync_switch_log2 = (int)simdrv::knob(s, "sync_switch_log2", 2);
-  cfg.rate[K_SPURIOUS] = simdrv::knob(s, "spurious_pct", 0) / 100.0;
+  cfg.rate[K_SPURIOUS] = simdrv::knob(s, "spurious_pct", 0) / 100.0; cfg.freeze_pct = (int)simdrv::knob(s, "freeze_pct", 0);
   cfg.step_budget = 1500000; cfg.tail_budget_min = 400000; cfg.keep_log = keepLog;
   setProcessorCount((int)simdrv::knob(s, "nproc", 4));
   memset(&C, 0, sizeof C); C.spec = &s; C.nclients = (int)simdrv::knob(s, "clients", 1); if (C.nclients < 1) C.nclients = 1; if (C.nclients > 4) C.nclients = 4;
